@@ -163,7 +163,7 @@ class Report:
         cov = {
             'explanation': self.explanation,
             'obligations': n_inst,
-            'discharged': n_pass,
+            'discharged': n_pass - len([1 for r in self.rules for i in r.instances if i['verdict'] == 'PASS' and 'NOT DECIDED' in (i['detail'] or '')]),
             'evaluations': n_inst,
             'distinct_nontrivial': distinct,
             'rule': 'one evaluation = one rule instance (rule x site in the current source); distinct = distinct (rule, site, location) triples',
@@ -174,6 +174,9 @@ class Report:
             'canaries': self.canaries,
             'known_findings_reported': ['%s %s' % (r.id, i['site']) for r, i, _ in known_hits],
             'undecided': ['%s %s' % (r.id, i['site']) for r, i in undec],
+            # instances a rule recognised but could neither prove nor refute (reported as such, no verdict either way)
+            'no_verdict': ['%s %s: %s' % (r.id, i['site'], i['detail'][:160]) for r in self.rules for i in r.instances
+                           if i['verdict'] == 'PASS' and 'NOT DECIDED' in (i['detail'] or '')],
             'analysis_broken': self.broken,
             'exhaustive': False,
         }
